@@ -2,6 +2,7 @@
 from __future__ import annotations
 
 import ast
+import re
 
 from .cfg import CFG
 from .core import AnalysisError, unparse, walk_no_nested
@@ -226,6 +227,43 @@ def extent_findings(dv: DecoderView):
     if dv.soh + "10=" not in kinds_lits:
         bad.append(("extent[trailer]", "the frame extent is not cut at the SOH-anchored CheckSum trailer: with the start of the next frame already in the "
                                        "buffer the fragment is parsed as a field of this frame, which then fails its checksum and is lost", dv.fn))
+    # ... on every path: the trailer is searched for whenever the text is split (not only when no next frame was seen), and where
+    # the trailer and its closing SOH were found nothing else than a value computed from that position is the extent
+    inst += 1
+    g = dv.cfg
+    split_nodes = [n.id for n in g.nodes if n.kind in ("stmt", "test") and n.ast is not None and any(
+        isinstance(x, ast.Call) and isinstance(x.func, ast.Attribute) and x.func.attr == "split" and x.args and dv.fold_str(x.args[0]) == dv.soh
+        and isinstance(x.func.value, ast.Subscript) for x in walk_no_nested(n.ast))]
+    trailer_nodes, trailer_vars = set(), set()
+    for n in g.nodes:
+        if n.kind == "stmt" and isinstance(n.ast, ast.Assign) and isinstance(n.ast.value, ast.Call) and isinstance(n.ast.value.func, ast.Attribute) \
+                and n.ast.value.func.attr in ("find", "index") and n.ast.value.args and dv.fold_str(n.ast.value.args[0]) == dv.soh + "10=":
+            trailer_nodes.add(n.id)
+            trailer_vars |= {unparse(t) for t in n.ast.targets}
+    if split_nodes and trailer_nodes:
+        w = g.witness_path(g.entry, split_nodes, avoid=trailer_nodes, exc=False)
+        if w is not None:
+            bad.append(("extent[trailer searched on every path]",
+                        "a path reaches the split of the frame text without having searched for the frame's own CheckSum trailer (e.g. when the start of a later "
+                        "frame was seen first): with bytes between two frames in the buffer the first frame is parsed together with them, fails and is lost", dv.fn))
+        # where the trailer's closing SOH was found, the extent is redefined from it before the split
+        end_vars = set()
+        for n in g.nodes:
+            if n.kind == "stmt" and isinstance(n.ast, ast.Assign) and isinstance(n.ast.value, ast.Call) and isinstance(n.ast.value.func, ast.Attribute) \
+                    and n.ast.value.func.attr in ("find", "index") and n.ast.value.args and dv.fold_str(n.ast.value.args[0]) == dv.soh \
+                    and any(isinstance(x, ast.Name) and x.id in trailer_vars for a in n.ast.value.args[1:] for x in ast.walk(a)):
+                end_vars |= {unparse(t) for t in n.ast.targets}
+        ext_defs = {n.id for n in g.nodes if n.kind == "stmt" and isinstance(n.ast, ast.Assign) and {unparse(t) for t in n.ast.targets} & names
+                    and any(isinstance(x, ast.Name) and x.id in end_vars for x in ast.walk(n.ast.value))}
+        inst += 1
+        for t in g.nodes:
+            if t.kind == "test" and any(re.fullmatch(rf"{re.escape(v)} != -1", unparse(t.ast)) for v in end_vars):
+                for d, lab in g.succs(t.id, exc=False):
+                    if lab == "true" and d not in ext_defs:
+                        w2 = g.witness_path(d, split_nodes, avoid=ext_defs, exc=False)
+                        if w2 is not None:
+                            bad.append(("extent[trailer found => extent ends there]",
+                                        "the closing SOH of the frame's CheckSum trailer was found but a path reaches the split without taking the extent from it", t.ast))
     # the returned bytes are the buffer slice [start : start + extent]
     inst += 1
     for r in dv.returns:
